@@ -215,8 +215,9 @@ C04(cfg, obs) ==
      IN IF bad = {} THEN {} ELSE {W("C04", "orphan", Min(bad), u, cfg, "")})
     : u \in US}
   \cup
-  \* each upstream is subscribed at most once per subscription of the output
-  (IF IsShare(cfg) \/ RootKind(cfg) = "flatten" THEN {} ELSE
+  \* each upstream is subscribed at most once per subscription of the output (a share anywhere in the
+  \* graph may legitimately start a fresh upstream subscription)
+  (IF (\E n \in 1..Len(cfg.nodes) : cfg.nodes[n].kind = "share") \/ RootKind(cfg) = "flatten" THEN {} ELSE
    UNION {
      LET subs == {i \in Calls(obs) : obs[i].t = "Sub" /\ obs[i].v = cfg.nodes[n].pid} IN
      IF Cardinality(subs) > attaches
